@@ -7,7 +7,7 @@
   model (`toDisp_is_wtaStep`, `costVolume_is_mcRowStep`, `loopRefinement_is_refineStep`,
   `medianFilterDisparity_is_medianStep`, `check_is_ccStep`) — with `Local.comp` (cones add) and
   `Local.pair` (cones join).  Three ingredients stay abstract, as hypotheses of the theorems:
-    * `agg`   — the aggregation step on cost rows, local with a cone `Ra` (identity: `Cone.zero`; cbca: not
+    * `agg`   — the aggregation step on (scene, cost rows), local with a cone `Ra` (`noAgg`: `Cone.zero`; cbca: not
                 yet exhibited as a local step on partial images — see DESIGN_NOTES/C13.md);
     * `flagL` — the validity flags before refinement (criteria of the matching cost / disparity steps,
                 C04), local with cone `Rf`;
@@ -94,12 +94,25 @@ structure PipeCfg where
   invalidMask : Nat
   fs : Nat
 
+/-- an aggregation step reads the scene (cbca: the two images and masks) and the cost rows -/
+abbrev AggStep := Img (McCell × List Val) → Img (List Val)
+
+/-- no aggregation -/
+def noAgg : AggStep := fun a p => (a p).map (fun x => x.2)
+
+theorem noAgg_local : Local Cone.zero noAgg := Local.map id_local _
+theorem noAgg_equivariant : Equivariant noAgg := Equivariant.map id_equivariant _
+
+/-- the cost rows of the matching-cost step, as float values -/
+def mcStage (C : PipeCfg) : Img McCell → Img (List Val) :=
+  fun a p => (mcRowStep C.mc C.gmin C.n a p).map (List.map C.ev)
+
 /-- cost rows after matching cost and aggregation -/
-def costStage (C : PipeCfg) (agg : Img (List Val) → Img (List Val)) : Img McCell → Img (List Val) :=
-  fun a => agg (fun p => (mcRowStep C.mc C.gmin C.n a p).map (List.map C.ev))
+def costStage (C : PipeCfg) (agg : AggStep) : Img McCell → Img (List Val) :=
+  fun a => agg (pairStep (fun a => a) (mcStage C) a)
 
 /-- disparity after winner-takes-all -/
-def wtaStage (C : PipeCfg) (agg : Img (List Val) → Img (List Val)) : Img McCell → Img Val :=
+def wtaStage (C : PipeCfg) (agg : AggStep) : Img McCell → Img Val :=
   fun a => wtaStep C.isMax C.disps C.invalid (costStage C agg a)
 
 /-- what refinement reads at a pixel: its cost row, its disparity, its flag (`pmin`/`pmax` are read by the
@@ -107,7 +120,7 @@ def wtaStage (C : PipeCfg) (agg : Img (List Val) → Img (List Val)) : Img McCel
 def mkPixIn : (List Val × Val) × Nat → Refinement.PixIn := fun x => ⟨x.1.1, x.1.2, x.2, 0, 0⟩
 
 /-- (coefficient, disparity, flag) after refinement; `doRefine = false`: the step is absent -/
-def refineStage (C : PipeCfg) (agg : Img (List Val) → Img (List Val)) (flagL : Img McCell → Img Nat)
+def refineStage (C : PipeCfg) (agg : AggStep) (flagL : Img McCell → Img Nat)
     (doRefine : Bool) : Img McCell → Img (Val × Nat) :=
   fun a p =>
     (pairStep (pairStep (costStage C agg) (wtaStage C agg)) flagL a p).bind fun x =>
@@ -116,13 +129,13 @@ def refineStage (C : PipeCfg) (agg : Img (List Val) → Img (List Val)) (flagL :
       else some (x.1.2, x.2)
 
 /-- (disparity, flag) after the median filter (the filter does not write the flags) -/
-def medianStage (C : PipeCfg) (agg : Img (List Val) → Img (List Val)) (flagL : Img McCell → Img Nat)
+def medianStage (C : PipeCfg) (agg : AggStep) (flagL : Img McCell → Img Nat)
     (doRefine : Bool) : Img McCell → Img (Val × Nat) :=
   pairStep (medianStep C.invalidMask C.fs ∘ refineStage C agg flagL doRefine)
     (fun a p => (refineStage C agg flagL doRefine a p).map (fun x => x.2))
 
 /-- (disparity, flag) after the optional median filter; `doMedian = false`: the step is absent -/
-def filterStage (C : PipeCfg) (agg : Img (List Val) → Img (List Val)) (flagL : Img McCell → Img Nat)
+def filterStage (C : PipeCfg) (agg : AggStep) (flagL : Img McCell → Img Nat)
     (doRefine doMedian : Bool) : Img McCell → Img (Val × Nat) :=
   if doMedian then medianStage C agg flagL doRefine else refineStage C agg flagL doRefine
 
@@ -131,23 +144,27 @@ def costCone (C : PipeCfg) (Ra : Cone) : Cone := (mcCone C.mc C.gmin C.gmax).add
 
 theorem costStage_local (C : PipeCfg) (hsp : 0 < C.mc.sp)
     (hn : ∀ j : Nat, j < C.n → C.gmin * (C.mc.sp : Int) + j ≤ C.gmax * (C.mc.sp : Int))
-    {agg : Img (List Val) → Img (List Val)} {Ra : Cone} (hA : Local Ra agg) :
-    Local (costCone C Ra) (costStage C agg) :=
-  Local.comp (Local.map (mcRowStep_local C.mc hsp C.gmin C.gmax C.n hn) (List.map C.ev)) hA
+    {agg : AggStep} {Ra : Cone} (hA : Local Ra agg) :
+    Local (costCone C Ra) (costStage C agg) := by
+  have h := Local.comp (pairStep_local id_local
+    (Local.map (mcRowStep_local C.mc hsp C.gmin C.gmax C.n hn) (List.map C.ev))) hA
+  refine Local.mono ?_ h
+  simp [costCone, Cone.sup, Cone.zero, Cone.add]
 
-theorem costStage_equivariant (C : PipeCfg) {agg : Img (List Val) → Img (List Val)} (hA : Equivariant agg) :
+theorem costStage_equivariant (C : PipeCfg) {agg : AggStep} (hA : Equivariant agg) :
     Equivariant (costStage C agg) :=
-  Equivariant.comp (Equivariant.map (mcRowStep_equivariant C.mc C.gmin C.n) (List.map C.ev)) hA
+  Equivariant.comp (pairStep_equivariant id_equivariant
+    (Equivariant.map (mcRowStep_equivariant C.mc C.gmin C.n) (List.map C.ev))) hA
 
 theorem wtaStage_local (C : PipeCfg) (hsp : 0 < C.mc.sp)
     (hn : ∀ j : Nat, j < C.n → C.gmin * (C.mc.sp : Int) + j ≤ C.gmax * (C.mc.sp : Int))
-    {agg : Img (List Val) → Img (List Val)} {Ra : Cone} (hA : Local Ra agg) :
+    {agg : AggStep} {Ra : Cone} (hA : Local Ra agg) :
     Local (costCone C Ra) (wtaStage C agg) := by
   have h := Local.comp (costStage_local C hsp hn hA) (wtaStep_local C.isMax C.disps C.invalid)
   refine Local.mono ?_ h
   simp [Cone.add, Cone.zero]
 
-theorem wtaStage_equivariant (C : PipeCfg) {agg : Img (List Val) → Img (List Val)} (hA : Equivariant agg) :
+theorem wtaStage_equivariant (C : PipeCfg) {agg : AggStep} (hA : Equivariant agg) :
     Equivariant (wtaStage C agg) :=
   Equivariant.comp (costStage_equivariant C hA) (wtaStep_equivariant C.isMax C.disps C.invalid)
 
@@ -156,7 +173,7 @@ def refineCone (C : PipeCfg) (Ra Rf : Cone) : Cone := (costCone C Ra).sup Rf
 
 theorem refineStage_local (C : PipeCfg) (hsp : 0 < C.mc.sp)
     (hn : ∀ j : Nat, j < C.n → C.gmin * (C.mc.sp : Int) + j ≤ C.gmax * (C.mc.sp : Int))
-    {agg : Img (List Val) → Img (List Val)} {Ra : Cone} (hA : Local Ra agg)
+    {agg : AggStep} {Ra : Cone} (hA : Local Ra agg)
     {flagL : Img McCell → Img Nat} {Rf : Cone} (hF : Local Rf flagL) (doRefine : Bool) :
     Local (refineCone C Ra Rf) (refineStage C agg flagL doRefine) := by
   have h1 := pairStep_local (pairStep_local (costStage_local C hsp hn hA) (wtaStage_local C hsp hn hA)) hF
@@ -167,7 +184,7 @@ theorem refineStage_local (C : PipeCfg) (hsp : 0 < C.mc.sp)
   refine Local.mono ?_ h2
   simp [refineCone, Cone.sup]
 
-theorem refineStage_equivariant (C : PipeCfg) {agg : Img (List Val) → Img (List Val)} (hA : Equivariant agg)
+theorem refineStage_equivariant (C : PipeCfg) {agg : AggStep} (hA : Equivariant agg)
     {flagL : Img McCell → Img Nat} (hF : Equivariant flagL) (doRefine : Bool) :
     Equivariant (refineStage C agg flagL doRefine) :=
   Equivariant.bind (pairStep_equivariant
@@ -180,7 +197,7 @@ def filterCone (C : PipeCfg) (Ra Rf : Cone) (doMedian : Bool) : Cone :=
 
 theorem filterStage_local (C : PipeCfg) (hsp : 0 < C.mc.sp)
     (hn : ∀ j : Nat, j < C.n → C.gmin * (C.mc.sp : Int) + j ≤ C.gmax * (C.mc.sp : Int))
-    {agg : Img (List Val) → Img (List Val)} {Ra : Cone} (hA : Local Ra agg)
+    {agg : AggStep} {Ra : Cone} (hA : Local Ra agg)
     {flagL : Img McCell → Img Nat} {Rf : Cone} (hF : Local Rf flagL) (doRefine doMedian : Bool) :
     Local (filterCone C Ra Rf doMedian) (filterStage C agg flagL doRefine doMedian) := by
   have hr := refineStage_local C hsp hn hA hF doRefine
@@ -198,7 +215,7 @@ theorem filterStage_local (C : PipeCfg) (hsp : 0 < C.mc.sp)
     refine Local.mono ?_ h
     simp [Cone.sup, Cone.add, Cone.square]
 
-theorem filterStage_equivariant (C : PipeCfg) {agg : Img (List Val) → Img (List Val)} (hA : Equivariant agg)
+theorem filterStage_equivariant (C : PipeCfg) {agg : AggStep} (hA : Equivariant agg)
     {flagL : Img McCell → Img Nat} (hF : Equivariant flagL) (doRefine doMedian : Bool) :
     Equivariant (filterStage C agg flagL doRefine doMedian) := by
   have hr := refineStage_equivariant C hA hF doRefine
@@ -218,7 +235,7 @@ theorem filterStage_equivariant (C : PipeCfg) {agg : Img (List Val) → Img (Lis
 
 /-- the whole pipeline: flag word and confidence cell after cross-checking the filtered left map against
     the right disparity map -/
-def ccStage (C : PipeCfg) (agg : Img (List Val) → Img (List Val)) (flagL : Img McCell → Img Nat)
+def ccStage (C : PipeCfg) (agg : AggStep) (flagL : Img McCell → Img Nat)
     (doRefine doMedian : Bool) (dispR : Img McCell → Img Val) (V : CrossCheck.Variant) (CP : CrossCheck.Params) :
     Img McCell → Img CrossCheck.PixOut :=
   fun a => ccStep V CP (fun p =>
@@ -232,7 +249,7 @@ def pipeCone (C : PipeCfg) (Ra Rf Rr : Cone) (doMedian : Bool) (CP : CrossCheck.
     is local, its cone being the sum of the step cones (joined with the cone of the right map). -/
 theorem ccStage_local (C : PipeCfg) (hsp : 0 < C.mc.sp)
     (hn : ∀ j : Nat, j < C.n → C.gmin * (C.mc.sp : Int) + j ≤ C.gmax * (C.mc.sp : Int))
-    {agg : Img (List Val) → Img (List Val)} {Ra : Cone} (hA : Local Ra agg)
+    {agg : AggStep} {Ra : Cone} (hA : Local Ra agg)
     {flagL : Img McCell → Img Nat} {Rf : Cone} (hF : Local Rf flagL) (doRefine doMedian : Bool)
     {dispR : Img McCell → Img Val} {Rr : Cone} (hR : Local Rr dispR)
     (V : CrossCheck.Variant) (CP : CrossCheck.Params) :
@@ -241,7 +258,7 @@ theorem ccStage_local (C : PipeCfg) (hsp : 0 < C.mc.sp)
   have h2 := Local.map h1 (fun (x : (Val × Nat) × Val) => ((x.1.1, x.1.2, x.2) : CcCell))
   exact Local.comp h2 (ccStep_local V CP)
 
-theorem ccStage_equivariant (C : PipeCfg) {agg : Img (List Val) → Img (List Val)} (hA : Equivariant agg)
+theorem ccStage_equivariant (C : PipeCfg) {agg : AggStep} (hA : Equivariant agg)
     {flagL : Img McCell → Img Nat} (hF : Equivariant flagL) (doRefine doMedian : Bool)
     {dispR : Img McCell → Img Val} (hR : Equivariant dispR) (V : CrossCheck.Variant) (CP : CrossCheck.Params) :
     Equivariant (ccStage C agg flagL doRefine doMedian dispR V CP) :=
@@ -253,7 +270,7 @@ theorem ccStage_equivariant (C : PipeCfg) {agg : Img (List Val) → Img (List Va
     wherever the crop starts. -/
 theorem pipeline_crop_eq_whole (C : PipeCfg) (hsp : 0 < C.mc.sp)
     (hn : ∀ j : Nat, j < C.n → C.gmin * (C.mc.sp : Int) + j ≤ C.gmax * (C.mc.sp : Int))
-    {agg : Img (List Val) → Img (List Val)} {Ra : Cone} (hA : Local Ra agg) (hAe : Equivariant agg)
+    {agg : AggStep} {Ra : Cone} (hA : Local Ra agg) (hAe : Equivariant agg)
     {flagL : Img McCell → Img Nat} {Rf : Cone} (hF : Local Rf flagL) (hFe : Equivariant flagL)
     (doRefine doMedian : Bool)
     {dispR : Img McCell → Img Val} {Rr : Cone} (hR : Local Rr dispR) (hRe : Equivariant dispR)
@@ -269,7 +286,7 @@ theorem pipeline_crop_eq_whole (C : PipeCfg) (hsp : 0 < C.mc.sp)
 /-- … and for the filtered left disparity and flags (pipelines without cross-checking) -/
 theorem filter_crop_eq_whole (C : PipeCfg) (hsp : 0 < C.mc.sp)
     (hn : ∀ j : Nat, j < C.n → C.gmin * (C.mc.sp : Int) + j ≤ C.gmax * (C.mc.sp : Int))
-    {agg : Img (List Val) → Img (List Val)} {Ra : Cone} (hA : Local Ra agg) (hAe : Equivariant agg)
+    {agg : AggStep} {Ra : Cone} (hA : Local Ra agg) (hAe : Equivariant agg)
     {flagL : Img McCell → Img Nat} {Rf : Cone} (hF : Local Rf flagL) (hFe : Equivariant flagL)
     (doRefine doMedian : Bool)
     (ny nx r0 c0 ny' nx' : Nat) (scene : Nat → Nat → McCell) (hfit : r0 + ny' ≤ ny ∧ c0 + nx' ≤ nx) (p : Px)
@@ -302,14 +319,14 @@ theorem pipeCone_documented (C : PipeCfg) (A : Nat) (CP : CrossCheck.Params) (ho
 /-! ### any other local filter in place of the median (bilateral), any left map under cross-checking -/
 
 /-- (disparity, flag) after a disparity filter `filt` that does not write the flags -/
-def filtStage (C : PipeCfg) (agg : Img (List Val) → Img (List Val)) (flagL : Img McCell → Img Nat)
+def filtStage (C : PipeCfg) (agg : AggStep) (flagL : Img McCell → Img Nat)
     (doRefine : Bool) (filt : Img (Val × Nat) → Img Val) : Img McCell → Img (Val × Nat) :=
   pairStep (filt ∘ refineStage C agg flagL doRefine)
     (fun a p => (refineStage C agg flagL doRefine a p).map (fun x => x.2))
 
 theorem filtStage_local (C : PipeCfg) (hsp : 0 < C.mc.sp)
     (hn : ∀ j : Nat, j < C.n → C.gmin * (C.mc.sp : Int) + j ≤ C.gmax * (C.mc.sp : Int))
-    {agg : Img (List Val) → Img (List Val)} {Ra : Cone} (hA : Local Ra agg)
+    {agg : AggStep} {Ra : Cone} (hA : Local Ra agg)
     {flagL : Img McCell → Img Nat} {Rf : Cone} (hF : Local Rf flagL) (doRefine : Bool)
     {filt : Img (Val × Nat) → Img Val} {Rm : Cone} (hM : Local Rm filt) :
     Local ((refineCone C Ra Rf).add Rm) (filtStage C agg flagL doRefine filt) := by
@@ -318,7 +335,7 @@ theorem filtStage_local (C : PipeCfg) (hsp : 0 < C.mc.sp)
   refine Local.mono ?_ h
   simp [Cone.sup, Cone.add]
 
-theorem filtStage_equivariant (C : PipeCfg) {agg : Img (List Val) → Img (List Val)} (hA : Equivariant agg)
+theorem filtStage_equivariant (C : PipeCfg) {agg : AggStep} (hA : Equivariant agg)
     {flagL : Img McCell → Img Nat} (hF : Equivariant flagL) (doRefine : Bool)
     {filt : Img (Val × Nat) → Img Val} (hM : Equivariant filt) :
     Equivariant (filtStage C agg flagL doRefine filt) := by
@@ -328,7 +345,7 @@ theorem filtStage_equivariant (C : PipeCfg) {agg : Img (List Val) → Img (List 
 /-- **The pipeline with the bilateral filter**: cone = cost cone (⊔ flags) + the window of the filter. -/
 theorem bilateralStage_local (C : PipeCfg) (hsp : 0 < C.mc.sp)
     (hn : ∀ j : Nat, j < C.n → C.gmin * (C.mc.sp : Int) + j ≤ C.gmax * (C.mc.sp : Int))
-    {agg : Img (List Val) → Img (List Val)} {Ra : Cone} (hA : Local Ra agg)
+    {agg : AggStep} {Ra : Cone} (hA : Local Ra agg)
     {flagL : Img McCell → Img Nat} {Rf : Cone} (hF : Local Rf flagL) (doRefine : Bool)
     (wts : Filter.Weights) (w : Nat) (hw : 0 < w) :
     Local ((refineCone C Ra Rf).add (bilateralCone w))
@@ -445,7 +462,7 @@ theorem pipeConeT_documented (C : PipeCfg) (A : Nat) (CP : CrossCheck.Params) (h
 def swapCell : McCell → McCell := fun s => ⟨s.r, s.l, s.mr, s.ml, -s.dmax, -s.dmin⟩
 
 /-- the right disparity map: the left pipeline (configuration `C'`: mirrored interval) on the swapped scene -/
-def rightDisp (C' : PipeCfg) (agg : Img (List Val) → Img (List Val)) (flagR : Img McCell → Img Nat)
+def rightDisp (C' : PipeCfg) (agg : AggStep) (flagR : Img McCell → Img Nat)
     (doRefine doMedian : Bool) : Img McCell → Img Val :=
   fun a p => (filterStage C' agg flagR doRefine doMedian (fun q => (a q).map swapCell) p).map (fun x => x.1)
 
@@ -453,7 +470,7 @@ def rightDisp (C' : PipeCfg) (agg : Img (List Val) → Img (List Val)) (flagR : 
     mirrored configuration. -/
 theorem rightDisp_local (C' : PipeCfg) (hsp : 0 < C'.mc.sp)
     (hn : ∀ j : Nat, j < C'.n → C'.gmin * (C'.mc.sp : Int) + j ≤ C'.gmax * (C'.mc.sp : Int))
-    {agg : Img (List Val) → Img (List Val)} {Ra : Cone} (hA : Local Ra agg)
+    {agg : AggStep} {Ra : Cone} (hA : Local Ra agg)
     {flagR : Img McCell → Img Nat} {Rf : Cone} (hF : Local Rf flagR) (doRefine doMedian : Bool) :
     Local (filterCone C' Ra Rf doMedian) (rightDisp C' agg flagR doRefine doMedian) := by
   have h0 : Local Cone.zero (fun (a : Img McCell) q => (a q).map swapCell) := Local.map id_local swapCell
@@ -461,7 +478,7 @@ theorem rightDisp_local (C' : PipeCfg) (hsp : 0 < C'.mc.sp)
   refine Local.mono ?_ h
   simp [Cone.add, Cone.zero]
 
-theorem rightDisp_equivariant (C' : PipeCfg) {agg : Img (List Val) → Img (List Val)} (hA : Equivariant agg)
+theorem rightDisp_equivariant (C' : PipeCfg) {agg : AggStep} (hA : Equivariant agg)
     {flagR : Img McCell → Img Nat} (hF : Equivariant flagR) (doRefine doMedian : Bool) :
     Equivariant (rightDisp C' agg flagR doRefine doMedian) :=
   Equivariant.map (Equivariant.comp (Equivariant.map id_equivariant swapCell)
@@ -487,11 +504,11 @@ def exCfg : PipeCfg where
 example (ny nx r0 c0 ny' nx' : Nat) (scene : Nat → Nat → McCell) (hfit : r0 + ny' ≤ ny ∧ c0 + nx' ≤ nx) (p : Px)
     (hcone : ∀ q, inCone (filterCone exCfg Cone.zero Cone.zero true) (p.1 + r0, p.2 + c0) q →
       InRect r0 c0 ny' nx' q ∨ ¬ InImage ny nx q) :
-    filterStage exCfg (fun a => a) (fun a q => (a q).map fun _ => 0) true true (toImg ny' nx' (cropArr r0 c0 scene)) p
-      = filterStage exCfg (fun a => a) (fun a q => (a q).map fun _ => 0) true true (toImg ny nx scene)
+    filterStage exCfg noAgg (fun a q => (a q).map fun _ => 0) true true (toImg ny' nx' (cropArr r0 c0 scene)) p
+      = filterStage exCfg noAgg (fun a q => (a q).map fun _ => 0) true true (toImg ny nx scene)
           (p.1 + r0, p.2 + c0) :=
   filter_crop_eq_whole exCfg (by decide) (by intro j hj; have h5 : j < 5 := hj; show (-1 : Int) * ((2 : Nat) : Int) + (j : Int) ≤ 1 * ((2 : Nat) : Int); omega)
-    id_local id_equivariant (Local.map id_local _) (Equivariant.map id_equivariant _) true true
+    noAgg_local noAgg_equivariant (Local.map id_local _) (Equivariant.map id_equivariant _) true true
     ny nx r0 c0 ny' nx' scene hfit p hcone
 
 example : filterCone exCfg Cone.zero Cone.zero true = ⟨2, 2, 3, 3⟩ := by decide
